@@ -39,6 +39,9 @@ pub fn render(decls: &[Decl], dflt: u32, entry: &str, tg: (u32, u32, u32), uses:
     // the typedef style (entry written `<name>+T`): every bound resource that is not bindless is declared through a
     // typedef of its type, arrays through a typedef of the array type
     let (entry, td_style) = match entry.strip_suffix("+T") { Some(e) => (e, true), None => (entry, false) };
+    // the reversed style (entry written `<name>+O`): the stage properties of the pipeline are written in reverse order
+    let (entry, rev_style) = match entry.strip_suffix("+O") { Some(e) => (e, true), None => (entry, false) };
+    let order = |stages: &[&str]| -> String { let mut v: Vec<&str> = stages.to_vec(); if rev_style { v.reverse(); } v.join(" ") };
     IS_OBJ.with(|v| *v.borrow_mut() = decls.iter().map(|d| d.kind.starts_with("o:")).collect());
     let mut s = String::from("struct S0 { uint m; };\n");
     for (i, d) in decls.iter().enumerate() {
@@ -78,7 +81,7 @@ pub fn render(decls: &[Decl], dflt: u32, entry: &str, tg: (u32, u32, u32), uses:
         s += " return float4(0.0, 0.0, 0.0, 1.0); }\n";
         s += "float4 PSMAIN(float4 pos : SV_Position) : SV_Target0 { helper(); return pos; }\n";
         s += "[numthreads(1, 1, 1)] void OTHER() { }\n";
-        s += &format!("Pipeline Main {{ VertexShader = VSMAIN; PixelShader = PSMAIN; DefaultBindGroup = {}; }}\n", dflt);
+        s += &format!("Pipeline Main {{ {} DefaultBindGroup = {}; }}\n", order(&["VertexShader = VSMAIN;", "PixelShader = PSMAIN;"]), dflt);
         if second_pipeline { s += "Pipeline Second { ComputeShader = OTHER; }\n"; }
         return s;
     }
@@ -93,12 +96,12 @@ pub fn render(decls: &[Decl], dflt: u32, entry: &str, tg: (u32, u32, u32), uses:
             s += "[numthreads(32, 1, 1)] [outputtopology(\"triangle\")] void MSMAIN(uint3 dtid : SV_DispatchThreadID, in payload Payload data, out vertices VA o_v[32], out indices uint3 o_t[32]) { helper(); SetMeshOutputCounts(32, 32); VA v; v.position = float4(data.start, 0, 0, 1); o_v[dtid.x] = v; o_t[dtid.x] = uint3(0, 1, 2); }\n";
             s += "float4 PSMAIN(float4 pos : SV_Position) : SV_Target0 { return pos; }\n";
             s += "[numthreads(1, 1, 1)] void OTHER() { }\n";
-            s += &format!("Pipeline Main {{ TaskShader = TSMAIN; MeshShader = MSMAIN; PixelShader = PSMAIN; DefaultBindGroup = {}; }}\n", dflt);
+            s += &format!("Pipeline Main {{ {} DefaultBindGroup = {}; }}\n", order(&["TaskShader = TSMAIN;", "MeshShader = MSMAIN;", "PixelShader = PSMAIN;"]), dflt);
         } else {
             s += &format!("[numthreads({}, {}, {})] [outputtopology(\"triangle\")] void MSMAIN(uint3 dtid : SV_DispatchThreadID, out vertices VA o_v[32], out indices uint3 o_t[32]) {{{} SetMeshOutputCounts(32, 32); VA v; v.position = float4(0, 0, 0, 1); o_v[dtid.x] = v; o_t[dtid.x] = uint3(0, 1, 2); }}\n", tg.0, tg.1, tg.2, direct);
             s += "float4 PSMAIN(float4 pos : SV_Position) : SV_Target0 { helper(); return pos; }\n";
             s += "[numthreads(1, 1, 1)] void OTHER() { }\n";
-            s += &format!("Pipeline Main {{ MeshShader = MSMAIN; PixelShader = PSMAIN; DefaultBindGroup = {}; }}\n", dflt);
+            s += &format!("Pipeline Main {{ {} DefaultBindGroup = {}; }}\n", order(&["MeshShader = MSMAIN;", "PixelShader = PSMAIN;"]), dflt);
         }
         return s;
     }
@@ -162,7 +165,7 @@ pub fn gen_cases(seed: u64, n: usize, _thorough: bool) -> Vec<String> {
         let u = pick(&mut rng);
         let h = pick(&mut rng);
         let mode = ["all", "name", "nopipe", "one"][rng.below(4) as usize];
-        let entry: String = if rng.chance(1, 8) { "CSMAIN+R".to_string() } else if rng.chance(1, 10) { (if rng.chance(1, 3) { "VSPS+T" } else { "CSMAIN+T" }).to_string() } else if rng.chance(1, 12) { "CSMAIN+N".to_string() } else { (if rng.chance(1, 4) { "VSPS" } else if rng.chance(1, 6) { *rng.pick(&["TASKMESH", "MESH"]) } else if rng.chance(1, 3) { *rng.pick(&entries) } else { "CSMAIN" }).to_string() };
+        let entry: String = if rng.chance(1, 8) { "CSMAIN+R".to_string() } else if rng.chance(1, 10) { (if rng.chance(1, 3) { "VSPS+T" } else { "CSMAIN+T" }).to_string() } else if rng.chance(1, 12) { "CSMAIN+N".to_string() } else { (if rng.chance(1, 4) { *rng.pick(&["VSPS", "VSPS+O"]) } else if rng.chance(1, 6) { *rng.pick(&["TASKMESH", "MESH", "TASKMESH+O", "MESH+O"]) } else if rng.chance(1, 3) { *rng.pick(&entries) } else { "CSMAIN" }).to_string() };
         let tg = (rng.range(1, 8), rng.range(1, 4), rng.range(1, 2));
         let ds: Vec<String> = decls.iter().map(|d| d.word()).collect();
         out.push(format!("{} {} {} {} {} {} {} U{} H{} {}", target, rng.below(3), mode, entry, tg.0, tg.1, tg.2, u, h, ds.join(" ")).trim_end().to_string());
